@@ -1,34 +1,13 @@
 import ArgoVerif.Proofs.Future
-/- Proofs.Future9 — invariant preservation: API calls (split for build parallelism). -/
+/- Proofs.Future9 — invariant preservation: API calls, part 1 (split for build parallelism). -/
 namespace ArgoVerif.Model.Future
 open ArgoVerif
 set_option maxHeartbeats 4000000
 
-/-- program counters a call starts at -/
-def Entry : Pc → Prop
-  | .setCalled | .rejected | .waitCalled | .testCalled | .resetCalled | .freeCalled => True
-  | .idle | .setCS | .setErrCS | .setErrDone | .setCbCS | .setCbRun | .setStCS | .setBcCS | .setRelCS | .setDone | .waitLdCS
-  | .waitCS | .waitEnq | .waiting | .reW | .woken | .reR | .passCS | .waitDone | .testDone0 | .testDone1 | .resetCS | .resetStCS
-  | .resetDone | .freeCS | .freed => False
-
-/-- frame lemma for calls -/
-theorem inv_enter (s : St) (a : Actor) (p : Pc) (g : Actor → Val) (h : Inv s) (h0 : s.pc a = .idle) (h1 : Entry p)
+/-- frame lemma for calls (set, wait) -/
+theorem inv_enter_a (s : St) (a : Actor) (p : Pc) (g : Actor → Val) (h : Inv s) (h0 : s.pc a = .idle)
+    (h1 : p = .setCalled ∨ p = .rejected ∨ p = .waitCalled)
     (h2 : s.kind a = .task → p ≠ .waitCalled) : Inv (setPc { s with arg := g } a p) := by
-  cases p <;> first | (simp [Entry] at h1; done) | (constructor <;> inv_tac h)
-
-theorem inv_stepCall (s s' : St) (a : Actor) (op : Op) (v : Val) (h : Inv s) (hs : stepCall s a op v = some s') : Inv s' := by
-  unfold stepCall at hs
-  split at hs
-  · cases hs
-  · rename_i h0
-    have h0 : s.pc a = .idle := by simpa using h0
-    cases op <;> simp only [] at hs <;> cases hs
-    · exact inv_enter s a _ _ h h0 trivial (by simp)
-    · by_cases hk : s.kind a = .task
-      · simpa [hk] using inv_enter s a .rejected s.arg h h0 trivial (by simp)
-      · simpa [hk] using inv_enter s a .waitCalled s.arg h h0 trivial (by simp [hk])
-    · exact inv_enter s a .testCalled s.arg h h0 trivial (by simp)
-    · exact inv_enter s a .resetCalled s.arg h h0 trivial (by simp)
-    · exact inv_enter s a .freeCalled s.arg h h0 trivial (by simp)
+  rcases h1 with rfl | rfl | rfl <;> constructor <;> inv_tac h
 
 end ArgoVerif.Model.Future
